@@ -358,6 +358,7 @@ func runC04(c *run.Ctx, s *kit.Summary) {
 	for i := 0; i < c.N(3, 40); i++ {
 		twoAttacks(s, r)
 	}
+	deadlineRace(c, s, r)
 	// last: these attacks cannot be ended (the loop sleeps for the wait it was given), so their goroutines stay
 	for i := 0; i < c.N(10, 120); i++ {
 		pk := parkCase{Workers: uint64(r.Pick(4)), Max: uint64(1 + r.Pick(4))}
@@ -516,4 +517,70 @@ func twoAttacks(s *kit.Summary, r *kit.Rng) {
 	}
 	check("first", p1, called1, returned1)
 	check("second", p2, called2, returned2)
+}
+
+// deadlineRace: thousands of very short unpaced attacks (the loop iterates back to back, so the deadline falls
+// between two iterations — or between two clock readings of one iteration — all the time). The pacer only looks at
+// what it is handed: it must never be consulted with an elapsed time beyond the duration ("when a duration is set,
+// the pacer is never consulted once more than that duration has elapsed"). No timing is measured by the harness.
+type zeroWaitPacer struct {
+	du   time.Duration
+	late int64
+	n    int64
+	max  time.Duration
+	mu   sync.Mutex
+}
+
+func (p *zeroWaitPacer) Pace(elapsed time.Duration, hits uint64) (time.Duration, bool) {
+	p.mu.Lock()
+	p.n++
+	if elapsed > p.du {
+		p.late++
+		if elapsed > p.max {
+			p.max = elapsed
+		}
+	}
+	p.mu.Unlock()
+	return 0, false
+}
+func (p *zeroWaitPacer) Rate(time.Duration) float64 { return 0 }
+
+func deadlineRace(c *run.Ctx, s *kit.Summary, r *kit.Rng) {
+	n := c.N(3000, 40000)
+	du := time.Duration(100+r.Pick(100)) * time.Microsecond
+	p := &zeroWaitPacer{du: du}
+	client := attackctl.NewFakeClient(func(uint64) {})
+	hung := 0
+	for i := 0; i < n && hung < 2; i++ {
+		atk := vegeta.NewAttacker(vegeta.Workers(2), vegeta.MaxWorkers(2), vegeta.Client(client))
+		res := atk.Attack(vegeta.NewStaticTargeter(vegeta.Target{Method: "GET", URL: "http://verif.invalid/"}), p, du, "c04race")
+		timeout := time.After(20 * time.Second)
+	drain:
+		for {
+			select {
+			case _, ok := <-res:
+				if !ok {
+					break drain
+				}
+			case <-timeout:
+				atk.Stop()
+				hung++
+				break drain
+			}
+		}
+	}
+	s.Case("deadline-race", true)
+	s.CountN("deadline_race:attacks", n)
+	p.mu.Lock()
+	late, total, worst := p.late, p.n, p.max
+	p.mu.Unlock()
+	s.CountN("deadline_race:consultations", int(total))
+	if hung > 0 {
+		s.Skipped["deadline race: attack did not end"] += hung
+	}
+	if late > 0 {
+		s.Violate(kit.Violation{Kind: "pace_consulted_after_deadline", What: "the pacer was consulted with an elapsed time beyond the attack's duration",
+			Input:    map[string]interface{}{"scenario": fmt.Sprintf("%d unpaced attacks of %s each, 2 workers, instant transport", n, du), "duration_ns": int64(du)},
+			Expected: fmt.Sprintf("every elapsed argument <= %s", du), Observed: fmt.Sprintf("%d of %d consultations beyond the duration, worst %s", late, total, worst)})
+	}
 }
